@@ -36,7 +36,7 @@ VALUES = ["5", "-5", "+7", " 8 ", "007", "0", "yes", "no", "true", "false", "Yes
 DEFAULTS = {"verbose": "info", "clean_logs": True, "use_spec_hashes": False}
 
 
-QUICK_BUDGET = {"cases": 800, "deadline_s": 100, "case_timeout_s": 120, "floors": {"config_commands": 1400, "file_comparisons": 1400, "backend_selections": 90, "verbosity_cases": 60, "colour_cases": 60, "settings_cases": 60}}
+QUICK_BUDGET = {"cases": 800, "deadline_s": 170, "case_timeout_s": 120, "floors": {"config_commands": 1142, "file_comparisons": 1142, "backend_selections": 35, "verbosity_cases": 35, "colour_cases": 35, "settings_cases": 60}}
 THOROUGH_FACTOR = 10  # thorough = the same workload with 10x the cases (floors scale along)
 
 
